@@ -146,6 +146,13 @@ fn one(h: &H, idx: u64, inst: &Inst, rng: &mut Rng, npts: usize) {
         h.eval(8);
         let det = e[0] * nn[1] - e[1] * nn[0];
         if conformal {
+            // what the stencil can resolve: its arms are differences of plane coordinates that
+            // carry a few ulp of rounding each, over an arm of 1e-3 rad of longitude - metres, not
+            // kilometres, within a degree of a pole (negligible elsewhere: 1e-11 at mid latitudes)
+            let (ew, ns) = inst.ell.metres_per_rad(lat);
+            let arm = (1.0e-3 * ew).min(STEP * ns) * norm(&e).min(norm(&nn));
+            let (centre, _) = apply1(&ctx, op, D::F, [lon, lat, 0.0, 0.0]);
+            let tol = tol + 64.0 * crate::geo::ulp(centre[0].abs().max(centre[1].abs())) / arm;
             let aniso = (norm(&e) / norm(&nn) - 1.0).abs();
             let skew = (e[0] * nn[0] + e[1] * nn[1]).abs() / (norm(&e) * norm(&nn));
             h.max(&format!("{}: anisotropy / tol", inst.name), aniso / tol, || format!("{} at {lon} {lat}", inst.def));
